@@ -158,6 +158,7 @@ def run(tier, seed, replay=None):
         ('Orientation.compute (2nd arg)', lambda o: True, lambda o, q: Orientation.compute(o.clone(), o)),
         ('make_splines_compatible on clones', lambda o: q is not None, lambda o, q: (lambda a, b: (SplineObject.make_splines_compatible(a, b), (a, b))[1])(o.clone(), q.clone())),
     ]
+    TWO_OPERAND = {'sf.edge_curves(2)', 'sf.loft', 'vf.edge_surfaces(2)', 'vf.loft', 'make_splines_compatible on clones'}
     INPLACE = [
         ('insert_knot', lambda o: True, lambda o: o.insert_knot(mid(o)[0], 0)),
         ('refine', lambda o: len(o) < 300, lambda o: o.refine(1)),
@@ -177,7 +178,22 @@ def run(tier, seed, replay=None):
         ('*=', lambda o: True, lambda o: o.__imul__(2.0)),
         ('lower_periodic', lambda o: o.bases[0].periodic >= 0, lambda o: o.lower_periodic(-1, 0)),
     ]
-    nobj = 60 if tier == 'quick' else 700
+    # in-place operations that take ANOTHER object as an argument: only the receiver may change
+    def _variant(q, k):
+        """the argument in another embedding: k = 0 as is, 1 other dimension, 2 other rationality, 3 both"""
+        q = q.clone()
+        if k in (1, 3):
+            q.set_dimension(5 - q.dimension)
+        if k in (2, 3):
+            if q.rational:
+                q = type(q)(*q.bases, np.array(q.controlpoints[..., :-1]), False, raw=True)
+            else:
+                q.force_rational()
+        return q
+    INPLACE2 = [
+        ('append', lambda o, q: o.pardim == 1 and o.bases[0].periodic < 0 and q.bases[0].periodic < 0, lambda o, q: o.append(q)),
+    ]
+    nobj = 150 if tier == 'quick' else 700
     evals = 0
     nontriv = set()
     dist = {'op': {}, 'operand': {}, 'errors': {}}
@@ -193,6 +209,9 @@ def run(tier, seed, replay=None):
         for (name, ok, call) in NONIN:
             o = O.make_impl(spec)
             q = O.make_impl(spec2)
+            if name in TWO_OPERAND and (it + len(name)) % 2 == 1:
+                # the second operand in another embedding (other dimension and/or rationality than the first)
+                q = _variant(q, 1 + (it % 3))
             try:
                 appl = ok(o)
             except Exception:
@@ -247,6 +266,37 @@ def run(tier, seed, replay=None):
                 V.failure(dict(case, what='mutating an operand of %s changed the result' % name))
             if len(samples) < 3 and name.startswith('vf.'):
                 samples.append({'op': name, 'operand': key})
+        for (name, ok2, call2) in INPLACE2:
+            for k_ in range(4):
+                o = O.make_impl(spec)
+                q = _variant(O.make_impl(spec2), k_)
+                try:
+                    if not ok2(o, q):
+                        continue
+                except Exception:
+                    continue
+                before_q = deep(q)
+                case = {'op': name, 'obj': O.spec_json(spec), 'other': O.spec_json(O.snapshot(q)), 'argument_variant': k_}
+                try:
+                    ret = call2(o, q)
+                except Exception as e:  # noqa
+                    nm = type(e).__name__
+                    dist['errors'][name + ':' + nm] = dist['errors'].get(name + ':' + nm, 0) + 1
+                    if deep(q) != before_q:
+                        V.failure(dict(case, what='%s raised %s and left its argument modified' % (name, nm)))
+                    continue
+                evals += 1
+                dist['op'][name] = dist['op'].get(name, 0) + 1
+                nontriv.add(C.case_hash([name, key, k_]))
+                if ret is not o:
+                    V.failure(dict(case, what='in-place operation %s did not return its receiver' % name))
+                if deep(q) != before_q:
+                    V.failure(dict(case, what='in-place operation %s modified its argument (dimension %d, rational %s afterwards)' % (name, q.dimension, q.rational)))
+                    continue
+                ra, rb = arrays_of(o)
+                qa, qb = arrays_of(q)
+                if any(x is y or (x.size and y.size and np.shares_memory(x, y)) for x in ra for y in qa) or any(x is y for x in rb for y in qb):
+                    V.failure(dict(case, what='after %s the receiver shares mutable state with the argument' % name))
         for (name, ok, call) in INPLACE:
             o = O.make_impl(spec)
             bystander = O.make_impl(spec)
